@@ -467,8 +467,11 @@ pub fn run(part: &mut Part) {
                         hash_seed: 0,
                         power_loss,
                         second_crash: false,
-                        cont_struct: 0,
-                        cont_other: 0,
+                        // under the policies that persist every call: one more call after the
+                        // recovery, then a restart (what was acknowledged after a crash recovery
+                        // survives too)
+                        cont_struct: 1,
+                        cont_other: 1,
                         initial_open: false,
                         pre_cut_last_file: None,
                     });
